@@ -188,10 +188,13 @@ fn rvalue<'tcx>(cx: &Ctx<'tcx>, owner: LocalDefId, body: &Body<'tcx>, rv: &Rvalu
     }
 }
 
-pub fn dump_body<'tcx>(cx: &Ctx<'tcx>, owner: LocalDefId, body: &Body<'tcx>) -> (J, Vec<J>, Vec<J>) {
+pub fn dump_body<'tcx>(cx: &Ctx<'tcx>, owner: LocalDefId, body: &Body<'tcx>) -> (J, Vec<J>, Vec<J>, Vec<J>) {
     let owner_path = cx.path(owner.to_def_id());
     let mut calls = vec![];
     let mut casts = vec![];
+    let mut aggs: Vec<J> = vec![];
+    let mut agg_seen: std::collections::BTreeSet<(String, String)> = Default::default();
+    let mut ref_seen: std::collections::BTreeSet<String> = Default::default();
     // locals
     let mut names: Vec<Option<String>> = vec![None; body.local_decls.len()];
     for vdi in body.var_debug_info.iter() {
@@ -224,6 +227,30 @@ pub fn dump_body<'tcx>(cx: &Ctx<'tcx>, owner: LocalDefId, body: &Body<'tcx>) -> 
             match &st.kind {
                 StatementKind::Assign(b) => {
                     let (p, rv) = &**b;
+                    if let Rvalue::Aggregate(kind, ops) = rv {
+                        if let AggregateKind::Adt(did, vidx, _, _, _) = &**kind {
+                            let adt = cx.tcx.adt_def(*did);
+                            let key = (cx.path(*did), adt.variant(*vidx).name.to_string());
+                            if agg_seen.insert(key.clone()) {
+                                aggs.push(J::Obj(vec![
+                                    ("fn", J::s(owner_path.clone())),
+                                    ("adt", J::s(key.0)),
+                                    ("variant", J::s(key.1)),
+                                    ("loc", cx.loc(st.source_info.span)),
+                                    ("expn", cx.expn(st.source_info.span)),
+                                ]));
+                            }
+                        }
+                        for o in ops.iter() {
+                            note_fnref(cx, o, &mut ref_seen);
+                        }
+                    }
+                    if let Rvalue::Use(o, ..) = rv {
+                        note_fnref(cx, o, &mut ref_seen);
+                    }
+                    if let Rvalue::Cast(_, o, _) = rv {
+                        note_fnref(cx, o, &mut ref_seen);
+                    }
                     if let Rvalue::Cast(kind, o, t) = rv {
                         let from = o.ty(body, cx.tcx);
                         // pointer coercions (unsizing, reborrow) are not interesting
@@ -298,6 +325,9 @@ pub fn dump_body<'tcx>(cx: &Ctx<'tcx>, owner: LocalDefId, body: &Body<'tcx>) -> 
                     ty::FnPtr(..) => (cx.ty_str(fty), None, None, "ptr"),
                     _ => (cx.ty_str(fty), None, None, "other"),
                 };
+                for a in args.iter() {
+                    note_fnref(cx, &a.node, &mut ref_seen);
+                }
                 let argj: Vec<J> = args.iter().map(|a| operand(cx, owner, body, &a.node)).collect();
                 let arg_tys: Vec<J> =
                     args.iter().map(|a| J::s(cx.ty_str(a.node.ty(body, cx.tcx)))).collect();
@@ -379,7 +409,19 @@ pub fn dump_body<'tcx>(cx: &Ctx<'tcx>, owner: LocalDefId, body: &Body<'tcx>) -> 
         ("upvars", if upvars.is_empty() { J::Null } else { J::Arr(upvars) }),
         ("blocks", J::Arr(blocks)),
     ]);
-    (j, calls, casts)
+    for r in ref_seen {
+        aggs.push(J::Obj(vec![("fn", J::s(owner_path.clone())), ("fnref", J::s(r))]));
+    }
+    (j, calls, casts, aggs)
+}
+
+/// functions (incl. tuple-struct / variant constructors) used as values
+fn note_fnref<'tcx>(cx: &Ctx<'tcx>, o: &Operand<'tcx>, seen: &mut std::collections::BTreeSet<String>) {
+    if let Operand::Constant(c) = o {
+        if let ty::FnDef(did, _) = c.const_.ty().kind() {
+            seen.insert(cx.path(*did));
+        }
+    }
 }
 
 fn unwind_j(u: &UnwindAction) -> J {
